@@ -106,11 +106,13 @@ def main(tier, seed, repo, replay_file):
 
     # ---------------- Miri
     d, _ = build("miri", repo)
-    miri_batches = [(4, "both", "light"), (3, "same", "light"), (6, "mixed", "light"), (4, "stagger", "light")]
+    # "lightsurf" = the light workload plus the rest of the public surface through the shared layers (elliptical cone, polygon, bilinear,
+    # ring conversion, external edge, ...): Miri's race detector needs both accesses to be executed, not a particular schedule, so 2-3 threads suffice
+    miri_batches = [(4, "both", "light"), (3, "same", "light"), (6, "mixed", "light"), (4, "stagger", "light"), (2, "same", "lightsurf")]
     if thorough:
-        miri_batches.append((3, "both", "full"))
+        miri_batches += [(3, "mixed", "lightsurf"), (3, "both", "full")]
     for bi, (thr, mode, light) in enumerate(miri_batches):
-        n = n_miri if light == "light" else 8
+        n = n_miri if light == "light" else (4 if light == "lightsurf" and not thorough else 8)
         s0 = (seed * 1000 + bi * 100000) % 4000000
         flags = f"-Zmiri-disable-isolation -Zmiri-deterministic-floats -Zmiri-many-seeds={s0}..{s0 + n}"
         cmd = ["cargo", "+nightly", "miri", "run", "--offline", "--", str(thr), mode, str(seed), light]
